@@ -2,14 +2,64 @@
   HotXL.Model.Fn.DateTime — builtin functions of this family (filled in as the family is modelled).
   `table` maps a registered function name to its model; a registered name with no entry
   here is reported by the evaluator as `Value.other "unmodelled-builtin"`.
+
+  Modelled so far (property C13): `DATEVALUE`, `DAYS` of hotxlfp/formulas/dateandtime.py, through
+  `utils.parse_date` / `utils.serialize_date` on any value.
 -/
 import HotXL.Model.Fn.Common
 
 namespace HotXL.Fn.DateTime
-open HotXL
+open HotXL HotXL.Ops
 
 open HotXL.Fn
 
-def table : List (String × Builtin) := []
+/-- `utils.parse_date(v)`: `.ok (.date us)`, `.ok` of an error value (`#NUM!` below 0, `#VALUE!` for
+    what is neither a number nor a date), `.error` = it RAISED (OverflowError beyond year 9999).
+    Text: `to_number` first, then ISO-8601 dates; for any other text `dateutil` decides
+    (library behaviour, `.other`: the model has no opinion). -/
+def parseDate : Value → Except Err Value
+  | .err e => .ok (.err e)
+  | .date us => .ok (.date us)
+  | .num n => (match parseDateValue (Num.toRat n) with | some v => .ok v | none => .error .error)
+  | .bool b => (match parseDateValue (if b then 1 else 0) with | some v => .ok v | none => .error .error)
+  | .str s =>
+    (match toNumberText s with
+     | .num n => (match parseDateValue (Num.toRat n) with | some v => .ok v | none => .error .error)
+     | .text => (match isoDate? s with
+       | some us => .ok (.date us)
+       | none => .ok (.other "dateutil-text")))
+  | _ => .ok (.err .value)
+
+/-- `utils.serialize_date(v)`: the serial of `parse_date(v)`, `#VALUE!` if that is not a datetime -/
+def serializeDate (v : Value) : Except Err Value :=
+  match parseDate v with
+  | .error e => .error e
+  | .ok (.date us) => .ok (.num (Dates.serialize us))
+  | .ok (.other t) => .ok (.other t)
+  | .ok _ => .ok (.err .value)
+
+/-- `DATEVALUE(date) = utils.serialize_date(date)` -/
+def DATEVALUE : Builtin
+  | [v] => serializeDate v
+  | _ => .error .error
+
+/-- `DAYS(end_date, start_date)`: both through `parse_date`; `#VALUE!` if either is an error;
+    else `serialize_date(end) - serialize_date(start)` -/
+def DAYS : Builtin
+  | [e, s] =>
+    match parseDate e with
+    | .error x => .error x
+    | .ok e' =>
+      match parseDate s with
+      | .error x => .error x
+      | .ok s' =>
+        match e', s' with
+        | .other t, _ => .ok (.other t)
+        | _, .other t => .ok (.other t)
+        | .date a, .date b => .ok (.num (numSub (Dates.serialize a) (Dates.serialize b)))
+        | _, _ => .ok (.err .value)
+  | _ => .error .error
+
+def table : List (String × Builtin) := [("DATEVALUE", DATEVALUE), ("DAYS", DAYS)]
 
 end HotXL.Fn.DateTime
